@@ -249,13 +249,14 @@ COLLECT_ONLY = False
 EVIDENCE_DIR = os.environ.get('VERIF_EVIDENCE_DIR', os.path.join(VERIF, 'evidence'))
 
 
-def seeded_replay(pid):
-    """thorough tier: apply every seeded breaking change recorded for this property to a scratch copy of
-    /repo, re-extract facts there and re-run this property's quick check; report which ones the check caught.
+def seeded_replay(pid, kind='seeded'):
+    """thorough tier: apply every seeded breaking change (kind='seeded') or every behaviour-preserving refactoring
+    (kind='benign') recorded for this property to a scratch copy of /repo, re-extract facts there and re-run this
+    property's quick check; report which breaking changes the check caught / on which refactorings it stayed silent.
     Never changes the verdict on /repo itself."""
     import tempfile
     out = []
-    sdir = os.path.join(VERIF, 'seeded')
+    sdir = os.path.join(VERIF, kind)
     if not os.path.isdir(sdir):
         return out
     for name in sorted(os.listdir(sdir)):
@@ -275,7 +276,7 @@ def seeded_replay(pid):
             if ap.returncode != 0:
                 ap = subprocess.run(['patch', '-p1', '-s', '-d', dst, '-i', patch], stdout=subprocess.PIPE, stderr=subprocess.STDOUT, text=True)
             if ap.returncode != 0:
-                out.append({'seed': name, 'status': 'patch does not apply to the current tree (skipped)'})
+                out.append({('seed' if kind == 'seeded' else 'refactoring'): name, 'status': 'patch does not apply to the current tree (skipped)'})
                 continue
             env = dict(os.environ)
             env['VERIF_REPO'] = dst
@@ -284,7 +285,10 @@ def seeded_replay(pid):
             r = subprocess.run([sys.executable, os.path.join(VERIF, 'py', 'harness.py'), pid, '--tier', 'quick'], env=env, stdout=subprocess.PIPE, stderr=subprocess.STDOUT, text=True)
             fired = 'VIOLATION property=%s' % pid in r.stdout
             rules = sorted(set(re.findall(r'^  (C\d+[\w.]*) ', r.stdout, re.M)))
-            out.append({'seed': name, 'status': 'caught' if fired else ('check failed to run' if r.returncode not in (0, 1) else 'MISSED'), 'rules': rules[:8]})
+            if kind == 'seeded':
+                out.append({'seed': name, 'status': 'caught' if fired else ('check failed to run' if r.returncode not in (0, 1) else 'MISSED'), 'rules': rules[:8]})
+            else:
+                out.append({'refactoring': name, 'status': 'ALARM' if fired else ('check failed to run' if r.returncode not in (0, 1) else 'silent'), 'rules': rules[:8]})
         finally:
             shutil.rmtree(tmp, ignore_errors=True)
             # the scratch tree's facts are of no further use
@@ -344,6 +348,9 @@ def finish(res, tier, t0, level='other', explanation='', trusted=None, distinct=
         st = seeded_replay(res.pid)
         cov['selftest_seeded_changes'] = st
         cov['selftest_summary'] = 'caught %d of %d seeded changes' % (sum(1 for x in st if x['status'] == 'caught'), sum(1 for x in st if x['status'] in ('caught', 'MISSED')))
+        bt = seeded_replay(res.pid, 'benign')
+        cov['selftest_benign_refactorings'] = bt
+        cov['selftest_summary'] += '; silent on %d of %d behaviour-preserving refactorings' % (sum(1 for x in bt if x['status'] == 'silent'), sum(1 for x in bt if x['status'] in ('silent', 'ALARM')))
     if proof or level == 'proof':
         cov['checker_cmd'] = './check %s' % res.pid
         cov['trusted_base'] = trusted or []
